@@ -336,6 +336,49 @@ Inductive attempt_failure := FailNoTx | FailAtRate (rate : Z).
 Definition failed_result_rate (a : attempt_failure) : Z :=
   match a with FailNoTx => 0 | FailAtRate r => r end.
 
+(* ------------------------------------------------------------------ *)
+(* weight_estimator.go: child-pays-for-parent                           *)
+
+(* an input's unconfirmed parent (input.UnconfParent()): the parent tx (keyed
+   by the input's outpoint hash), its fee and its weight *)
+Record parent := mkPar { par_tx : Z; par_fee : Z; par_weight : Z }.
+
+(* weightEstimator.tryAddParent over the inputs in order: a parent tx is
+   counted once; parentFeeRate = fee * 1000 / weight (int64, truncating); a
+   parent paying at least the sweep's fee rate is ignored *)
+Fixpoint add_parents (rate : Z) (ps : list (option parent)) (seen : list Z) (pf pw : Z) : Z * Z :=
+  match ps with
+  | [] => (pf, pw)
+  | None :: r => add_parents rate r seen pf pw
+  | Some p :: r =>
+    if existsb (Z.eqb (par_tx p)) seen then add_parents rate r seen pf pw
+    else if rate <=? Z.quot (wrap64 (par_fee p * 1000)) (par_weight p)
+         then add_parents rate r seen pf pw
+         else add_parents rate r (par_tx p :: seen) (pf + par_fee p) (pw + par_weight p)
+  end.
+
+(* weightEstimator.fee(): parents are NOT taken into account *)
+Definition west_fee (rate w : Z) : Z := Z.quot (wrap64 (rate * w)) 1000.
+
+(* weightEstimator.feeWithParent(): fee of the package minus what the parents
+   paid, at least the child's own fee, clamped to maxFeeRate * childWeight
+   unless maxFeeRate = 0 *)
+Definition west_fee_with_parent (rate maxr w pf pw : Z) : Z :=
+  let cf := west_fee rate w in
+  let fee0 := west_fee rate (w + pw) - pf in
+  let fee := if fee0 <? cf then cf else fee0 in
+  if maxr =? 0 then fee
+  else let mf := west_fee maxr w in if mf <? fee then mf else fee.
+
+(* fee_bumper.go prepareSweepTx - the fee of EVERY tx the TxPublisher makes:
+     _, estimator, _ := getWeightEstimate(inputs, nil, feeRate, 0, changePkScripts)
+     txFee := estimator.fee()
+   whatever unconfirmed parents the inputs have.  (feeWithParent is used only by
+   txgenerator.go createSweepTx = walletsweep.go CraftSweepAllTx, which passes its
+   own maxFeeRate; the publisher's estimator is built with maxFeeRate 0, i.e.
+   WITHOUT the clamp.) *)
+Definition prepare_fee (rate w : Z) (ps : list (option parent)) : Z := west_fee rate w.
+
 (* concrete instances used by Exec.v and Props.v *)
 Definition new_ff64 := new_ff f_scale_delta.
 Definition rate_at_pos64 := rate_at_pos f_scale_pos.
